@@ -248,9 +248,9 @@ def gen_sequence(rng, maxlen=8, malformed=False):
                     continue
                 a = rng.choice(ca)
                 fa = slots[a]['fmt']
-                # sums/products may hold ndarray terms, whose [] is numpy's: lists are kept out there
+                # sums/products may hold ndarray terms: the same per-axis semantics is required of them
                 I = gen_index(rng, list(slots[a]['D'].shape), malformed=malformed and rng.random() < 0.7,
-                              lists=fa in ('canon', 'tucker'))
+                              lists=True)
                 op = {'op': 'getitem', 'a': a, 'I': I}
                 D = o_getitem(slots[a]['D'], I)
                 exp = ('ok', D, 'scal' if isinstance(D, float) else fa)
@@ -392,8 +392,29 @@ def gen_sequence(rng, maxlen=8, malformed=False):
             continue
         ops.append(op)
         exps.append(exp)
-        if exp[0] == 'ok' and exp[2] != 'scal' and not isinstance(exp[1], float) and op['op'] != 'from_terms':
+        # results with an empty axis are checked but not fed to further operations (outside the stated
+        # quantifier: shapes incl. singleton axes and rank-0 terms, not empty axes)
+        if (exp[0] == 'ok' and exp[2] != 'scal' and not isinstance(exp[1], float) and op['op'] != 'from_terms'
+                and 0 not in np.shape(exp[1])):
             slots.append({'fmt': exp[2], 'D': np.asarray(exp[1], dtype=float)})
         else:
             slots.append(None)     # errors, scalars and truncations are not reused
+    return {'init': init, 'ops': ops}, exps
+
+
+def gen_directed_sum_index(rng):
+    """TensorSum / TensorProd holding an ndarray term, indexed by expressions that mix ints, slices
+    and index lists (per-axis semantics required of every term)."""
+    shape = [rng.choice([2, 3]), 2, 2] if rng.random() < 0.5 else [rng.choice([2, 3, 4]) for _ in range(3)]
+    init = [gen_tensor(rng, shape, 'full'), gen_tensor(rng, shape, rng.choice(['canon', 'tucker']))]
+    D = [dense_of(s) for s in init]
+    ops = [{'op': 'tsum', 'xs': [0, 1]}]
+    exps = [('ok', D[0] + D[1], 'sum')]
+    pats = [[{'i': 0}, {'s': [None, None, None]}, {'l': [0, 1]}],
+            [{'l': [0, 1]}, {'l': [1, 0]}],
+            [{'l': [1, 0]}, {'s': [None, None, -1]}, {'i': -1}],
+            [{'s': [None, None, None]}, {'l': [1]}, {'l': [0, 1, 1]}]]
+    I = {'items': rng.choice(pats)}
+    ops.append({'op': 'getitem', 'a': 2, 'I': I})
+    exps.append(('ok', o_getitem(D[0] + D[1], I), 'sum'))
     return {'init': init, 'ops': ops}, exps
